@@ -8,6 +8,16 @@ MODULE = "PQ.Props.C05"
 THEOREMS = ["PQ.C05.model_valid_for_every_shape", "PQ.C05.striping_lossless_for_every_shape", "PQ.C02.file_valid", "PQ.schema_valid", "PQ.parseFile_runWriter"]
 
 
+# (description, declarations): field lists with several names per type
+SYNTAX = [
+    ("multi-name required leaves", "type T struct {\n\tA, B int32\n\tC string\n}\n"),
+    ("multi-name optional leaves", "type T struct {\n\tID int64\n\tX, Y *float64\n}\n"),
+    ("multi-name repeated leaves", "type T struct {\n\tP, Q []string\n\tR bool\n}\n"),
+    ("multi-name groups", "type G struct {\n\tV int32\n\tW *string\n}\n\ntype T struct {\n\tK int64\n\tL, M G\n}\n"),
+    ("multi-name leaves inside a group", "type G struct {\n\tV, W int64\n}\n\ntype T struct {\n\tK int32\n\tH *G\n}\n"),
+]
+
+
 def shape_cases(chk, z, thorough):
     """records for one shape: structural enumeration (capped) and a few random, two page sizes"""
     recs, total, exh = workloads.structural_records(z, chk.rng, 60 if thorough else 24, lens=(0, 1, 2))
@@ -91,6 +101,13 @@ def run(chk):
     items = [("s%04d" % i, f) for i, f in enumerate(forests)]
     names = {sid: shapes.name_of(f) for sid, f in items}
     fmap = dict(items)
+    # the same shapes in Go's other field syntax: several names sharing one type (`A, B int32`)
+    srcs = {}
+    for k, (desc, body) in enumerate(SYNTAX):
+        sid = "x%04d" % k
+        srcs[sid] = "package %s\n\n%s" % (sid, body)
+        items.append((sid, srcs[sid], "T"))
+        names[sid] = "syntax:" + desc
     with Lock():
         cov["steps"] = rebuild_tools(chk.log)
         cov["steps"]["zoo"] = build_zoo(chk.log)
@@ -130,7 +147,7 @@ def run(chk):
                 hit.add(id(match))
                 chk.known_hits.append(match)
             continue
-        prop_fail.append({"case": "shape %s (%s)\n%s" % (names[sid], sid, shapes.render(fmap[sid], sid)), "key": {"shape": names[sid], "kind": kind},
+        prop_fail.append({"case": "shape %s (%s)\n%s" % (names[sid], sid, srcs[sid] if sid in srcs else shapes.render(fmap[sid], sid)), "key": {"shape": names[sid], "kind": kind},
                           "clause": "shape %s: %s" % (names[sid], kind), "got": detail[:400], "want": "deterministic generation, compiles, valid file, canonical striping, round trip"})
     cov.update({
         "obligations": pr["obligations"], "discharged": pr["discharged"], "axioms": pr["axioms"],
